@@ -12,10 +12,36 @@ from . import chan_gen as cg
 NREADERS = 4
 
 
-def make_job(rng, seed, nfiles=(2, 4), mode=None, small=True, restart=False):
-    """a short gapped / continuous recording: open, a few writes with gaps and multi-file spans, close"""
-    mode = mode or rng.choice(["gapped", "gapped", "contU", "contC"])
+def make_big_job(rng, seed):
+    """writes so large that HDF5 cannot keep them in its chunk cache (1 MiB): a later write call has to flush the chunk of an
+    earlier, already accepted call, so file-system operations (and their failures) happen inside H5Dwrite itself"""
+    n, d, fc, sc = 1000000, 1, 1000, 3600
+    t0 = (rng.randint(315532800, 4102444800) // sc) * sc * 1000 + rng.randint(0, sc - 3) * fc
+    dt = rng.choice(["<i4", "<f4", "<i8"])
+    cc = cd.ChanConfig(n, d, fc, sc, np.dtype(dt), False, 1, "gapped", t0, 3, compression=0, checksum=False, seed=seed)
+    b = cc.bound
+    start = b[0]
+    ops = [["open", start + cc.B]]
+    pos = start
+    for c in range(rng.randint(5, 7)):
+        ln = rng.choice([100000, 120000, 150000, 262144])
+        a = pos + rng.choice([0, 0, 0, 3])
+        if a + ln > b[-1] - 1:
+            break
+        ops.append(["write", a - start, ln])
+        pos = a + ln
+    ops.append(["close"])
+    return cc, ops
+
+
+def make_job(rng, seed, nfiles=(2, 4), mode=None, small=True, restart=False, many_calls=False):
+    """a short gapped / continuous recording: open, a few writes with gaps and multi-file spans, close
+    many_calls: more calls, both entry points (rf_write, rf_write_blocks) late in the job - whatever fails, calls of both
+    kinds follow it"""
+    mode = mode or rng.choice(["gapped", "gapped", "gapped", "contU", "contC"] if many_calls else ["gapped", "gapped", "contU", "contC"])
     realis = rng.choice([(10, 3, 1000, 2), (500, 9, 60, 3), (100, 1, 100, 1), (7, 2, 1000, 3), (48000, 1, 1, 1)])
+    if many_calls:      # enough samples per file for many calls
+        realis = rng.choice([(48000, 1, 1, 1), (100, 1, 100, 1), (2000, 3, 25, 1)])
     n, d, fc, sc = realis
     t0 = (rng.randint(315532800, 4102444800) * 1000) // (sc * 1000) * (sc * 1000) + rng.randint(0, (sc * 1000) // fc - 1) * fc
     if rng.random() < 0.5:
@@ -29,7 +55,7 @@ def make_job(rng, seed, nfiles=(2, 4), mode=None, small=True, restart=False):
     start = b[0] + rng.choice([0, 0, 1]) * min(1, b[1] - b[0] - 1)
     ops = [["open", start + cc.B]]
     pos = start
-    ncalls = rng.randint(2, 4)
+    ncalls = rng.randint(5, 7) if many_calls else rng.randint(2, 4)
     for c in range(ncalls):
         if pos > hi:
             break
@@ -37,8 +63,11 @@ def make_job(rng, seed, nfiles=(2, 4), mode=None, small=True, restart=False):
         a = min(pos + gap, hi)
         nxt = [x for x in b if x > a]
         ln = rng.choice([1, 2, (nxt[0] - a) if nxt else 1, (nxt[0] - a + 1) if nxt else 2, (nxt[1] - a + 1) if len(nxt) > 1 else 3])
+        if many_calls:
+            # leave room for the calls that follow
+            ln = max(3, min(ln, max(3, (hi - a + 1) // max(1, ncalls - c))))
         ln = max(1, min(ln, hi - a + 1, 5000))
-        if mode == "gapped" and rng.random() < 0.3 and ln >= 3:
+        if mode == "gapped" and (c % 2 == 1 if many_calls else rng.random() < 0.3) and ln >= 3:
             k = rng.randint(1, ln - 2)
             g2 = rng.choice([1, 2])
             if a + ln + g2 - 1 <= hi:
